@@ -42,7 +42,7 @@ CHECKS = {
                 note="Trusted: reference CRC/hash-tag implementation (self-checked against published vectors); the in-harness Redis stand-in; the harness mini-session that feeds ForwardHandler::handle_cmd_ctx (handle_session itself is covered by C08)."),
     "C17": dict(engine="enummc+simnet", cat="model_checking", ref="3/C17",
                 technique="bounded-exhaustive enumeration of control-plane values x both encodings x all single-token mutations against strict reference parsers",
-                text="Generated ProxyClusterMeta / ReplicatorMeta / MigrationTaskMeta values are encoded by the real encoders; each encoding (plain, compressed) must decode to an equal value, and every single-token deletion, truncation and replacement (and 64 single-character corruptions of each compressed payload) is judged by a strict reference parser: not an encoding => the real parser must reject, an encoding of w => the real parser must return w. JOURNEY (simnet): in the fault-free executions of the C07 scripts every task descriptor the real coordinator parses out of a real proxy's UMCTL INFOMGR reply must be accepted by the real broker's commit_migration the first time.",
+                text="Generated ProxyClusterMeta / ReplicatorMeta / MigrationTaskMeta values are encoded by the real encoders; each encoding (plain, compressed) must decode to an equal value, and every single-token deletion, truncation and replacement (and 64 single-character corruptions of each compressed payload) is judged by a strict reference parser: not an encoding => the real parser must reject, an encoding of w => the real parser must return w. Also structural mutations (adjacent transposition, duplication, insertion of each of 9 keyword/number/address tokens at every position; every pair of mutations in the deepest tier) and EVERY token sequence up to 6-8 tokens over a vocabulary of 8-11 tokens behind 7 fixed prefixes (token-level analogue of all strings up to a length) are judged the same way. JOURNEY (simnet): in the fault-free executions of the C07 scripts every task descriptor the real coordinator parses out of a real proxy's UMCTL INFOMGR reply must be accepted by the real broker's commit_migration the first time.",
                 note="Trusted: reference parsers in c17.rs (tolerant where the real grammar is deliberately open: unknown flags ignored, '+' in numbers, tokens after a complete task descriptor). Broker-produced SETCLUSTER/SETREPL messages travel through the real encoders and parsers in every C02/C07/C13 case."),
     "C20": dict(engine="simnet", cat="model_checking", ref="3/C20",
                 technique="bounded-exhaustive enumeration of strategy x topology x write shape x read shape x value on real proxies with a storing Redis stand-in",
@@ -50,11 +50,11 @@ CHECKS = {
                 note="Trusted: the Redis stand-in; zstd crate for the decode check. Values are a finite class menu, not all byte strings."),
     "C05": dict(engine="simnet+thrsched", cat="model_checking", ref="3/C05",
                 technique="sequential: bounded-exhaustive enumeration of SETCLUSTER/SETREPL sequences on a real proxy against a two-register reference model; concurrent: preemption-bounded exhaustive DFS over schedules of real threads at cfg-guarded scheduling points in set_meta / update_replicators",
-                text="SEQUENTIAL: every sequence of length <= 3 (thorough 4) over 29 messages (both kinds x epoch 1..3 x force x two contents, wrong-host and compressed variants) on a fresh real ForwardHandler; after every message the reply, UMCTL GETEPOCH, two routing probes and UMCTL INFOREPL must equal the reference model. CONCURRENT: 2-3 writer threads with 1-2 messages each (same kind) plus an observer (get_epoch then routing) run under a cooperative scheduler; all schedules with <= 2 (thorough 3) preemptions at the atomic-level points; oracle: the installed state is that of the accepted message with the highest epoch, the newest message is accepted, every rejected message is stale w.r.t. an accepted one, the observer never sees routing older than the epoch it read.",
+                text="SEQUENTIAL: every sequence of length <= 3 (thorough 4) over 29 messages (both kinds x epoch 1..3 x force x two contents, wrong-host and compressed variants) on a fresh real ForwardHandler, plus a foreign-host family (12 local-node addresses that resemble the proxy's own host - announce host as prefix / suffix / substring, other spellings - alone or behind an own-host node, each alone, after and before every base message); after every message the reply, UMCTL GETEPOCH, two routing probes and UMCTL INFOREPL must equal the reference model. CONCURRENT: 2-3 writer threads with 1-2 messages each (same kind) plus an observer (get_epoch then routing) run under a cooperative scheduler; all schedules with <= 2 (thorough 3) preemptions at the atomic-level points; oracle: the installed state is that of the accepted message with the highest epoch, the newest message is accepted, every rejected message is stale w.r.t. an accepted one, the observer never sees routing older than the epoch it read.",
                 note="The concurrent oracle deliberately does not demand linearizability of the accept/reject replies: update_replicators fails fast on an epoch that is still being installed (by design), which is not a violation of the property as long as every rejected message is superseded by an accepted one. Trusted: reference model, scheduler (sched.rs), textual hook-coverage scan (a pass is refused when an access to the shared fields has no scheduling point); only SeqCst interleavings are explored (checked textually)."),
     "C11": dict(engine="thrsched", cat="model_checking", ref="3/C11",
                 technique="preemption-bounded exhaustive DFS over schedules of real threads (senders, migration controller, replier) at cfg-guarded scheduling points before every shared-memory access of the blocking queue",
-                text="The real BlockingMap / TaskBlockingQueue / BlockingHandle / BiAtomicU32 run with harness inner and re-dispatch senders under a cooperative scheduler; scenarios: 1-2 senders (1-2 tasks, hints computed like the migrating task does, or NotBlocking), a controller (start_blocking, wait for blocking_done, hold, drop) and a replier; every schedule with <= 2 (thorough 3) preemptions is executed; oracle: no task reaches the backend sender between the moment blocking_done() was observed and the handle drop, every task is dispatched exactly once (backend, re-dispatch or answered), nothing stays queued, no deadlock/livelock.",
+                text="The real BlockingMap / TaskBlockingQueue / BlockingHandle / BiAtomicU32 run with harness inner and re-dispatch senders under a cooperative scheduler; scenarios: 1-2 senders (1-2 tasks, hints computed like the migrating task does, or NotBlocking), also on a backend whose queue was dropped and re-created before (a node that left and came back: sender and controller must still share one queue), a controller (start_blocking, wait for blocking_done, hold, drop) and a replier; every schedule with <= 2 (thorough 3) preemptions is executed; oracle: no task reaches the backend sender between the moment blocking_done() was observed and the handle drop, every task is dispatched exactly once (backend, re-dispatch or answered), nothing stays queued, no deadlock/livelock.",
                 note="Waiting loops are modelled as blocking on precise events (so spinning does not unroll); only SeqCst interleavings at the hooked points are explored (orderings and point coverage are checked textually on every run; a pass is refused if coverage is incomplete). crossbeam_channel and DashMap internals are treated as atomic operations."),
     "C16": dict(engine="hostile", cat="model_checking", ref="3/C16",
                 technique="bounded-exhaustive enumeration of hostile inputs (raw bytes, length prefixes, nesting, truncations, every command x extreme arguments, control messages with extreme numbers) executed on the real decoder and handler in a watched child process with a counting allocator",
@@ -78,11 +78,11 @@ CHECKS = {
                 note="Uses real loopback sockets on 127.0.0.1-3:7000-7001 (uncontrolled timing, controlled data; cases run sequentially). The view assignment family is systematic but not the full product of all assignments. The hook proposed in the property (caller-supplied max epoch) is not used: the production path is exercised as is."),
     "C03": dict(engine="simnet", cat="model_checking", ref="3/C03",
                 technique="delay-bounded exhaustive enumeration of message-level schedules (stateless DFS over a harness-owned network) of real proxies during a live migration, with a brute-force linearizability oracle over replies and final store contents",
-                text="Scenarios: 4->8 node scale-out, one focus migration between two real proxies (real broker, real coordinator rounds), two clients with 1-2 commands {GET,SET,DEL,INCR,EXISTS,EXPIRE,MSETNX,EVAL} on two keys that share a migration lock slot (plus one key outside the range) entering at the source, destination or a bystander proxy at different moments of the scan. Every proxy->proxy and proxy->Redis request waits at a gate owned by the explorer; all schedules with at most d deferrals (d=2 quick, 3 thorough; wide command-pair family d-1) are run to completion including the commit; each history (invocation/response steps, replies) together with the final contents of source and destination must admit a sequential explanation from the initial contents; keys of the range must be gone from the source. The scenarios with a push-path command (DEL, EXPIRE) are additionally explored under a slow-scanner default schedule (a pending SCAN is served only when nothing else is pending), which brings three-reordering races of push, scan and client inside the two-deferral bound.",
+                text="Scenarios: 4->8 node scale-out, one focus migration between two real proxies (real broker, real coordinator rounds), two clients with 1-2 commands {GET,SET,DEL,INCR,EXISTS,EXPIRE,MSETNX,EVAL} on two keys that share a migration lock slot (plus one key outside the range) entering at the source, destination or a bystander proxy at different moments of the scan (a grid of start points, plus a dense family: one deleting command through the destination started after every number 0..14 of served requests, so that it lands in every gap between the scan's SCAN, PTTL+DUMP, RESTORE and DEL). Every proxy->proxy and proxy->Redis request waits at a gate owned by the explorer; all schedules with at most d deferrals (d=2 quick, 3 thorough; wide command-pair family d-1) are run to completion including the commit; each history (invocation/response steps, replies) together with the final contents of source and destination must admit a sequential explanation from the initial contents; keys of the range must be gone from the source. The scenarios with a push-path command (DEL, EXPIRE) are additionally explored under a slow-scanner default schedule (a pending SCAN is served only when nothing else is pending), which brings three-reordering races of push, scan and client inside the two-deferral bound.",
                 note="Bound: a deferral lasts 16 explorer steps; in the quick tier a request can be deferred only while something else is enabled, in the thorough tier also when it is alone (time then passes in 1 ms steps); 1 ms timer steps otherwise only when nothing else is enabled. Trusted: the Redis stand-in (DUMP/RESTORE/BUSYKEY, EXISTS, scripts), real-time order by explorer step. The 2 clients x 2 keys alphabet is the whole data space explored."),
     "C07": dict(engine="simnet", cat="model_checking", ref="3/C07",
                 technique="fault-plan enumeration (stateless DFS over global call indices) of real coordinator rounds against the real broker and real proxies on a harness-owned network, with invariant and convergence oracles",
-                text="Scripts (create cluster; scale-out with migration; migration source / destination proxy dies mid-migration; scale-in) run the real coordinator loops (metadata sync, migration-state sync, failure detection, failure handling) against the real in-memory broker and 6 real proxies. Every outgoing coordinator call (broker or proxy) passes one gate and gets a global index; all plans of <= d faults (d=1 quick, 2 thorough with the second fault within 30 calls) in the fault window are executed: request lost, reply lost after execution, duplicated, delayed and delivered stale, coordinator crash before the call, target proxy restarted empty, a second coordinator running a whole pass between two calls, the next admin operation applied between two calls. Oracles: accepted SETCLUSTER/SETREPL epochs strictly increase per proxy incarnation; GETEPOCH never decreases; every task committed at most once and a refused commit leaves the store unchanged; in the committing round the destination is updated before the source (its SETCLUSTER is issued first AND has been answered when the source request is issued); after 4 fault-free passes every registered, non-failed, reachable proxy reports the broker's epoch and holds (UMCTL INFO, canonicalised) exactly what a fresh proxy fed from the broker holds; no finished migration stays uncommitted.",
+                text="Scripts (create cluster; scale-out with migration; migration source / destination proxy dies mid-migration; a cluster member dies while no spare proxy is registered and a spare registers two rounds later (failover retried each round); scale-in) run the real coordinator loops (metadata sync, migration-state sync, failure detection, failure handling) against the real in-memory broker and 6 real proxies. Every outgoing coordinator call (broker or proxy) passes one gate and gets a global index; all plans of <= d faults (d=1 quick, 2 thorough with the second fault within 30 calls) in the fault window are executed: request lost, reply lost after execution, duplicated, delayed and delivered stale, coordinator crash before the call, target proxy restarted empty, a second coordinator running a whole pass between two calls, the next admin operation applied between two calls. Oracles: accepted SETCLUSTER/SETREPL epochs strictly increase per proxy incarnation; GETEPOCH never decreases; every task committed at most once and a refused commit leaves the store unchanged; in the committing round the destination is updated before the source (its SETCLUSTER is issued first AND has been answered when the source request is issued); after 4 fault-free passes every registered, non-failed, reachable proxy reports the broker's epoch and holds (UMCTL INFO, canonicalised) exactly what a fresh proxy fed from the broker holds; no finished migration stays uncommitted.",
                 note="Interleaving of two coordinators is at whole-pass granularity (a pass of B between any two calls of A), not call-by-call. Failure quorum 1. Trusted: Redis stand-in; migration data transfer itself is C03's subject."),
     "C19": dict(engine="simnet", cat="model_checking", ref="3/C19",
                 technique="enumeration of PTTL reply classes x the three transfer paths on complete real migrations between real proxies, with the source stand-in scripted; observation of the RESTORE ttl argument at the destination stand-in",
